@@ -61,6 +61,8 @@ type Engine struct {
 	crossRuns     int
 	crossAnswered int
 	crossDisagree []string
+	crossWG       sync.WaitGroup
+	crossSem      chan struct{}
 
 	harnessFiles map[string][]string // rel pkg dir -> harness file paths
 	methodCache  sync.Map
@@ -85,17 +87,26 @@ func (e *Engine) maybeCrossCheck(p *Path, extra []*Term, r Res) {
 	as := append(append([]*Term{}, p.pc...), extra...)
 	script := StandaloneScript(p.tt(), as)
 	want := r.String()
+	harness := p.harness
 	for _, kind := range []string{"cvc5", "z3-new"} {
-		got, err := RunOneShot(kind, script, 60)
-		e.mu.Lock()
-		e.crossRuns++
-		if err == nil && (got == "sat" || got == "unsat") {
-			e.crossAnswered++
-			if got != want {
-				e.crossDisagree = append(e.crossDisagree, fmt.Sprintf("%s answered %s where z3 4.8.12 answered %s (harness %s)", kind, got, want, p.harness))
+		kind := kind
+		e.crossWG.Add(1)
+		// the other solvers run beside the exploration; the verdict waits for them at the end
+		go func() {
+			defer e.crossWG.Done()
+			e.crossSem <- struct{}{}
+			defer func() { <-e.crossSem }()
+			got, err := RunOneShot(kind, script, 10)
+			e.mu.Lock()
+			e.crossRuns++
+			if err == nil && (got == "sat" || got == "unsat") {
+				e.crossAnswered++
+				if got != want {
+					e.crossDisagree = append(e.crossDisagree, fmt.Sprintf("%s answered %s where z3 4.8.12 answered %s (harness %s)", kind, got, want, harness))
+				}
 			}
-		}
-		e.mu.Unlock()
+			e.mu.Unlock()
+		}()
 	}
 }
 
@@ -227,6 +238,7 @@ func LoadEngine(prop, tier string, seed int64) *Engine {
 	if s := os.Getenv("POLYSYM_SCHED_BUDGET"); s != "" {
 		fmt.Sscan(s, &e.schedBudget)
 	}
+	e.crossSem = make(chan struct{}, 4)
 	e.findings = loadFindings()
 	e.harnessFiles = findHarnessFiles(prop)
 	if len(e.harnessFiles) == 0 {
